@@ -7,7 +7,6 @@ package pcache
 // ---------------------------------------------------------------------------
 // C17: find results expand extended providers per the IPNI rules, for any record
 
-
 // md(list, i): the i-th metadata override, absent when the list is shorter.
 // skip / eff are the two IPNI rules, written from the property statement:
 // the provider's own entry is skipped where it adds no new metadata; the
